@@ -105,6 +105,10 @@ def check_trace(it: Interp, order: List[str], root: int, d0, trace: List[tuple],
         rest = [h for h in expected[i:] if h[0] != "maybe-subtree"]
         if rest:
             probs.append(f"traversal ends without {rest[0][0]}(n{rest[0][1]})")
+        never = [h for h in expected if h[0] == "maybe-subtree"]
+        if never:
+            probs.append(f"the {never[0][2]} child of n{never[0][1]} is never looked at on this path: when it exists its "
+                         f"subtree is not visited")
         if ret is not None:
             probs.append(f"returns {ret!r} although nobody asked to stop")
     return probs
